@@ -210,9 +210,78 @@ fn first_diff(a: &J, b: &J) -> String {
     }
 }
 
-/// The oracle plus attribution to the blank-line finding: a case whose JSON rendering has a
-/// bare scalar followed by a blank line, that fails, and that passes once only those gaps
-/// are rewritten (same JSON value) is that finding, whatever the symptom.
+/// Open finding: a `😀`-style surrogate pair escape in a JSON string is not
+/// decoded (the string evaluates to null; `yq -o json .` prints malformed JSON).
+const SIG_JSON_SURROGATES: &str = "C26/json-input-misread/surrogate-pair-escape";
+
+/// Replace every `\uD8xx\uDCxx` escape pair inside JSON strings by the raw character
+/// (same JSON value). Returns whether any was found.
+fn surrogate_pairs_to_raw(json: &mut Vec<u8>) -> bool {
+    fn hex4(b: &[u8]) -> Option<u32> {
+        if b.len() < 4 {
+            return None;
+        }
+        let mut v = 0u32;
+        for &c in &b[..4] {
+            v = v * 16 + (c as char).to_digit(16)?;
+        }
+        Some(v)
+    }
+    let src = json.clone();
+    let mut out: Vec<u8> = Vec::with_capacity(src.len());
+    let mut found = false;
+    let mut in_str = false;
+    let mut i = 0;
+    while i < src.len() {
+        let b = src[i];
+        if !in_str {
+            in_str = b == b'"';
+            out.push(b);
+            i += 1;
+            continue;
+        }
+        if b == b'"' {
+            in_str = false;
+            out.push(b);
+            i += 1;
+            continue;
+        }
+        if b == b'\\' && i + 1 < src.len() {
+            if src[i + 1] == b'u' {
+                if let Some(hi) = hex4(&src[i + 2..]) {
+                    if (0xD800..0xDC00).contains(&hi) && src.get(i + 6) == Some(&b'\\') && src.get(i + 7) == Some(&b'u') {
+                        if let Some(lo) = hex4(&src[i + 8..]) {
+                            if (0xDC00..0xE000).contains(&lo) {
+                                let cp = 0x10000 + ((hi - 0xD800) << 10) + (lo - 0xDC00);
+                                if let Some(ch) = char::from_u32(cp) {
+                                    let mut buf = [0u8; 4];
+                                    out.extend_from_slice(ch.encode_utf8(&mut buf).as_bytes());
+                                    found = true;
+                                    i += 12;
+                                    continue;
+                                }
+                            }
+                        }
+                    }
+                }
+            }
+            out.push(b);
+            out.push(src[i + 1]);
+            i += 2;
+            continue;
+        }
+        out.push(b);
+        i += 1;
+    }
+    if found {
+        *json = out;
+    }
+    found
+}
+
+/// The oracle plus attribution to the open JSON-input findings: the shapes are removed from
+/// the JSON rendering one after the other (each rewrite keeps the JSON value); a failing
+/// case that passes as soon as a shape is gone is that finding, whatever the symptom.
 pub fn check_case(c: &Case, st: &mut Stats) -> Result<Outcome, Fail> {
     let f = match check_inner(c, st) {
         Err(f) => f,
@@ -222,15 +291,21 @@ pub fn check_case(c: &Case, st: &mut Stats) -> Result<Outcome, Fail> {
         return Err(f);
     }
     let mut fixed = c.clone();
-    if bare_scalar_before_blank_line(&mut fixed.json, true) {
-        if let Ok(o) = check_inner(&fixed, st) {
-            if o != Outcome::Discarded {
-                let mut d = f.detail.clone();
-                if let Some(m) = d.as_object_mut() {
-                    m.insert("symptom".into(), json!(f.sig));
-                    m.insert("attributed_because".into(), json!("the same case passes when the line breaks after bare JSON scalars are reduced to one"));
+    let steps: [(&str, &str, fn(&mut Vec<u8>) -> bool); 2] = [
+        (SIG_JSON_SURROGATES, "the same case passes when the surrogate pair escapes of the JSON text are written as raw characters", surrogate_pairs_to_raw),
+        (SIG_JSON_BLANK_LINE, "the same case passes when the line breaks after bare JSON scalars are reduced to one", |j| bare_scalar_before_blank_line(j, true)),
+    ];
+    for (sig, why, fix) in steps {
+        if fix(&mut fixed.json) {
+            if let Ok(o) = check_inner(&fixed, st) {
+                if o != Outcome::Discarded {
+                    let mut d = f.detail.clone();
+                    if let Some(m) = d.as_object_mut() {
+                        m.insert("symptom".into(), json!(f.sig));
+                        m.insert("attributed_because".into(), json!(why));
+                    }
+                    return Err(Fail::new(sig, d));
                 }
-                return Err(Fail::new(SIG_JSON_BLANK_LINE, d));
             }
         }
     }
@@ -358,6 +433,8 @@ struct Avoid {
     tail_tab: bool,
     /// a blank line after a bare JSON scalar
     blank_line: bool,
+    /// a surrogate pair escape in a JSON string
+    surrogates: bool,
 }
 
 struct Generated {
@@ -377,6 +454,9 @@ fn gen_case(u: &mut Src, av: Avoid) -> Generated {
     let j = gy::to_json_model(&tree);
     let ro = gj::render_opts(u);
     let mut json = gj::render(&j, u, ro).text;
+    if av.surrogates {
+        surrogate_pairs_to_raw(&mut json);
+    }
     if av.blank_line {
         bare_scalar_before_blank_line(&mut json, true);
     }
@@ -441,6 +521,8 @@ fn describe(c: &Case) -> Value {
 fn run_case(u: &mut Src, st: &mut Stats, av: Avoid) -> Result<(), Fail> {
     let g = gen_case(u, av);
     st.class_if(tab_after_break_in_tail(&g.case.json), "json:tab-after-line-break-in-tail");
+    st.class_if(surrogate_pairs_to_raw(&mut g.case.json.clone()), "json:surrogate-pair-escape");
+    st.class_if(bare_scalar_before_blank_line(&mut g.case.json.clone(), false), "json:blank-line-after-bare-scalar");
     classify(&g, st);
     st.describe(|| describe(&g.case));
     match check_case(&g.case, st)? {
@@ -491,9 +573,9 @@ pub fn run(cx: &mut Ctx) {
             cx.replay_outcome(&name, r);
         }
     }
-    let av = Avoid { tail_tab: cx.is_known(SIG_JSON_TAIL_TAB), blank_line: cx.is_known(SIG_JSON_BLANK_LINE) };
-    if av.tail_tab || av.blank_line {
-        cx.note("open finding: JSON renderings with a tab right after a line break in the trailing white space are not generated in `three-syntaxes`; `open-finding-shapes` generates them");
+    let av = Avoid { tail_tab: cx.is_known(SIG_JSON_TAIL_TAB), blank_line: cx.is_known(SIG_JSON_BLANK_LINE), surrogates: cx.is_known(SIG_JSON_SURROGATES) };
+    if av.tail_tab || av.blank_line || av.surrogates {
+        cx.note("open findings: `three-syntaxes` does not generate the JSON shapes of the findings listed as known (tab after a line break in trailing white space / blank line after a bare scalar / surrogate pair escapes); `open-finding-shapes` generates them");
     }
     cx.check("three-syntaxes", RULE, Budget { quick: 4_000, thorough: 200_000, max_len: 2500 }, |u, st| run_case(u, st, av));
     for cl in [
